@@ -118,11 +118,74 @@ def hang_failure(w: World) -> None:
         w.fail('hang', 'step-or-time-cap', 'run hit the step / virtual-time cap (steps=%d now=%.1f)' % (w.steps, w.now))
 
 
-def end_run(w: World, h: Any, res: Result) -> Result:
+def end_run(w: World, h: Any, res: Result, shared_check: bool = False) -> Result:
     if w.hung:
         hang_failure(w)
     if hasattr(h, 'stop') and not w.hung:
         if h.alive():
             if not h.stop():
                 w.fail('no_stop', 'executor', 'executor did not stop when asked')
+    if shared_check:
+        shared_state_check(w)       # after the executor has shut its remaining works down: that, too, is part of this run
     return finish(res, w)
+
+
+_SHARED: Dict[str, bytes] = {}
+
+
+def _shared_views() -> Dict[str, Any]:
+    import sys
+    cur: Dict[str, Any] = {}
+    for mname in sorted(m for m in sys.modules if m == 'proxy' or m.startswith('proxy.')):
+        mod = sys.modules.get(mname)
+        for name, val in sorted(getattr(mod, '__dict__', {}).items()):
+            if isinstance(val, memoryview):
+                cur['%s.%s' % (mname, name)] = val
+    return cur
+
+
+def shared_state_begin() -> None:
+    """Snapshot the objects every connection of a process shares (module-level memoryviews of proxy.*: the canned
+    response packets) before a run touches them."""
+    import proxy.http.handler, proxy.http.proxy.server, proxy.http.server.web, proxy.http.server.reverse  # noqa: F401,E401
+    import proxy.http.responses, proxy.core.base  # noqa: F401,E401
+    for key, mv in _shared_views().items():
+        if key not in _SHARED:
+            try:
+                _SHARED[key] = mv.tobytes()
+            except ValueError:
+                pass
+
+
+def shared_state_check(w: World) -> None:
+    """... and they must come out of the run as they went in: still usable, same bytes.  A damaged object is reported by the
+    run that damaged it and then replaced by a fresh copy of the snapshot, so that the process is again what a fresh process
+    would be (the run replays in this process and in another one alike)."""
+    import sys
+    repaired: Dict[int, Any] = {}
+    for key, mv in _shared_views().items():
+        try:
+            now: Optional[bytes] = mv.tobytes()
+        except ValueError:
+            now = None
+        if key not in _SHARED:
+            # an alias in a module imported during the run: the object's home is proxy.http.responses
+            home = _SHARED.get('proxy.http.responses.' + key.rsplit('.', 1)[1])
+            if now is not None or home is None:
+                if now is not None:
+                    _SHARED[key] = now
+                continue
+            _SHARED[key] = home
+        if now == _SHARED[key]:
+            continue
+        if not w.failures:
+            if now is None:
+                w.fail('shared_state_poisoned', 'released', 'the shared object %s (used by every connection of the process) '
+                       'was released during this run: later connections that need it will fail' % key)
+            else:
+                w.fail('shared_state_poisoned', 'modified', 'the shared object %s changed during this run (%r -> %r)'
+                       % (key, _SHARED[key][:40], now[:40]))
+        mname, name = key.rsplit('.', 1)
+        if id(mv) not in repaired:
+            repaired[id(mv)] = memoryview(_SHARED[key])
+        setattr(sys.modules[mname], name, repaired[id(mv)])
